@@ -5,10 +5,14 @@ import (
 	"fmt"
 	"math/rand/v2"
 	"reflect"
+	"strings"
 	"sync"
 	"sync/atomic"
 	"unicode"
 	"unicode/utf8"
+
+	"golang.org/x/text/cases"
+	"golang.org/x/text/language"
 
 	"github.com/octohelm/gengo/pkg/camelcase"
 	"github.com/octohelm/gengo/pkg/gengo"
@@ -75,6 +79,30 @@ type camelObs struct {
 	ConvSite       string  `json:"conv_site"`
 	ConvAgain      bool    `json:"conv_again"`
 	ConvAliasEqual bool    `json:"conv_alias_equal"`
+	// beyond C19 (bin/extras, family caseconv): what each converter answered, and - per word Split returned - the facts the
+	// converter model composes, computed with package unicode / strings / x/text directly (never through camelcase)
+	ConvOut [][]int    `json:"conv_out"`
+	Forms   []wordForm `json:"forms"`
+}
+
+type wordForm struct {
+	Drop  bool  `json:"drop"` // a one-byte word whose byte, read as a rune, is graphic but neither a digit nor a letter
+	Lower []int `json:"lower"`
+	Upper []int `json:"upper"`
+	Title []int `json:"title"`
+}
+
+func formsOf(words []string) []wordForm {
+	out := []wordForm{}
+	for _, w := range words {
+		f := wordForm{Lower: core.Bytes(strings.ToLower(w)), Upper: core.Bytes(strings.ToUpper(w)), Title: core.Bytes(cases.Title(language.Und).String(w))}
+		if len(w) == 1 {
+			c := rune(w[0])
+			f.Drop = unicode.IsGraphic(c) && !unicode.IsDigit(c) && !unicode.IsLetter(c)
+		}
+		out = append(out, f)
+	}
+	return out
 }
 
 var camelConvs = []func(string) string{
@@ -88,7 +116,7 @@ var camelAliases = []func(string) string{
 }
 
 func camelRun(input string) camelObs {
-	o := camelObs{Words: [][]int{}, Lens: []int{}}
+	o := camelObs{Words: [][]int{}, Lens: []int{}, ConvOut: [][]int{}, Forms: []wordForm{}}
 	var w1, w2 []string
 	o.Panic = core.Try(func() { w1 = camelcase.Split(input) })
 	if !o.Panicked {
@@ -98,6 +126,7 @@ func camelRun(input string) camelObs {
 			o.Words = append(o.Words, core.Bytes(w))
 			o.Lens = append(o.Lens, utf8.RuneCountInString(w))
 		}
+		o.Forms = formsOf(w1)
 	}
 	o.ConvAgain, o.ConvAliasEqual = true, true
 	for i, cv := range camelConvs {
@@ -115,6 +144,7 @@ func camelRun(input string) camelObs {
 		if a != c {
 			o.ConvAliasEqual = false
 		}
+		o.ConvOut = append(o.ConvOut, core.Bytes(a))
 	}
 	return o
 }
